@@ -16,8 +16,7 @@ EXPLANATION = ('Corollary of contracts stated over the abstract view (blade -> c
 TRUSTED = ['z3 5.1 (python API)', 'kvc VC generator', 'CPython ast module']
 ASSUMPTIONS = [K.ASSUME_CPYTHON, K.ASSUME_RING, K.ASSUME_GRAMMAR, K.ASSUME_TAIL,
                'a finite sum in a commutative ring does not depend on the order of its terms',
-               'do_codegen / func_builder / lambdify keep the positional pairing symbol i <-> value i (assumed here, bounded stand-in; '
-               'do_codegen binding is under contract in C02 when that obligation group is present)',
+               'lambdify keeps the positional pairing symbol i <-> value i (assumed; do_codegen and func_builder are under contract)',
                'composite operators (sw, proj, inv, div, sqrt, outer*) are built from the elementary operators on symbolic operands']
 ASSUMED = ['asfullmv: bounded stand-in only']
 
@@ -32,6 +31,9 @@ def build(H, tier, seed):
     D.vc_call_binary(H)
     D.vc_unary_call(H)
     A.vc_trivial_accessors(H)
+    from contracts import codegen_glue_c as G
+    G.vc_do_codegen(H)
+    G.vc_func_builder(H)
     vx, vy = z3.Reals('vx vy')
     neg = z3.Bool('neg')
     H.add_goal('lemma/L-pad: a stored zero coefficient contributes a zero term to every bilinear operator', [vx == 0],
